@@ -150,12 +150,84 @@ fn check_instant(ctx: &mut Ctx, tz: Tz, secs: i64, digits: u32, tag: &str) {
     expect(ctx, "hayson-text", "serde_json::from_str", catch(|| dt_of(serde_json::from_str::<Value>(&doc).map_err(|e| e.to_string()))), &want, false, &doc);
     let j = catch(|| serde_json::to_string(&lib_val).map_err(|e| e.to_string()).and_then(|t| dt_of(serde_json::from_str::<Value>(&t).map_err(|e| format!("{e} (doc {t})")))));
     expect(ctx, "hayson-roundtrip", "Hayson encode->decode", j, &want, false, &doc);
+    // E: the C API: an instant (UTC date + time) and a zone name -> that instant in that zone; getters give it back
+    if nanos % 1_000_000 == 0 {
+        capi_instant(ctx, tz, secs, nanos, &want, &short);
+    }
     // D: zone-less constructors: Err or exactly the instant (zone/offset of the result are not prescribed)
     let mut any = want.clone();
     any.tz = String::new();
     expect(ctx, "rfc3339", "parse_from_rfc3339", catch(|| DateTime::parse_from_rfc3339(&text)), &any, true, &text);
     expect(ctx, "make_datetime_from_iso", "Value::make_datetime_from_iso", catch(|| dt_of(Value::make_datetime_from_iso(&text))), &any, true, &text);
     expect(ctx, "from_str", "DateTime::from_str", catch(|| text.parse::<DateTime>()), &any, true, &text);
+}
+
+fn capi_instant(ctx: &mut Ctx, tz: Tz, secs: i64, nanos: u32, want: &MDateTime, short: &str) {
+    use libhaystack::c_api::datetime::*;
+    use libhaystack::c_api::err::last_error_message;
+    use libhaystack::c_api::str::haystack_string_destroy;
+    use libhaystack::c_api::value::*;
+    use std::ffi::{CStr, CString};
+    let (y, mo, d) = civil_from_days(secs.div_euclid(86400));
+    let sod = secs.rem_euclid(86400) as u32;
+    let r = catch(|| unsafe {
+        let date = haystack_value_make_date(y as i32, mo, d).map(Box::into_raw);
+        let time = haystack_value_make_time_millis(sod / 3600, (sod / 60) % 60, sod % 60, nanos / 1_000_000).map(Box::into_raw);
+        let (Some(date), Some(time)) = (date, time) else { return Err("make_date/make_time failed".to_string()) };
+        let zname = CString::new(if tz == chrono_tz::UTC { "UTC" } else { short }).unwrap();
+        let dt = if tz == chrono_tz::UTC && secs % 2 == 0 { haystack_value_make_utc_datetime(date, time) } else { haystack_value_make_tz_datetime(date, time, zname.as_ptr()) };
+        let out = match dt {
+            None => {
+                let e = last_error_message();
+                let msg = if e.is_null() { "no error message".to_string() } else { let m = CStr::from_ptr(e).to_string_lossy().to_string(); haystack_string_destroy(e as *mut _); m };
+                Err(format!("make_tz_datetime failed: {msg}"))
+            }
+            Some(b) => {
+                let p = Box::into_raw(b);
+                let got = match &*p {
+                    Value::DateTime(d) => Some(observe_datetime(d)),
+                    _ => None,
+                };
+                // getters: local date/time and zone name
+                let ld = Box::into_raw(haystack_value_init());
+                let lt = Box::into_raw(haystack_value_init());
+                let r1 = haystack_value_get_datetime_date(p, false, ld);
+                let r2 = haystack_value_get_datetime_time(p, false, lt);
+                let zn = haystack_value_get_datetime_timezone(p);
+                let zs = if zn.is_null() { String::new() } else { let z = CStr::from_ptr(zn).to_string_lossy().to_string(); haystack_string_destroy(zn as *mut _); z };
+                let local = (crate::bridge::observe(&*ld), crate::bridge::observe(&*lt), format!("{r1:?}{r2:?}"));
+                for q in [ld, lt, p] {
+                    haystack_value_destroy(q);
+                }
+                Ok((got, local, zs))
+            }
+        };
+        haystack_value_destroy(date);
+        haystack_value_destroy(time);
+        out
+    });
+    ctx.stratum("c-api");
+    match r {
+        Err(p) => ctx.violation(&format!("c-api:{}", panic_sig(&p)), &p.msg, json!({"zone": tz.name(), "secs": secs})),
+        Ok(Err(e)) => ctx.violation(&format!("c-api:rejected:{}", class_of(want)), &format!("{e} for instant {secs} in {}", tz.name()), json!({})),
+        Ok(Ok((got, (ld, lt, rr), zs))) => {
+            match got {
+                Some(g) if g == *want => {}
+                other => ctx.violation(&format!("c-api:make_tz_datetime:{}", class_of(want)), &format!("instant {secs}.{nanos:09} in {} gives {:?}, expected {:?}", tz.name(), other, want), json!({})),
+            }
+            let local = secs + want.offset as i64;
+            let (ly, lm, ldd) = civil_from_days(local.div_euclid(86400));
+            let lsod = local.rem_euclid(86400) as u32;
+            let want_d = crate::model::MVal::Date(ly as i32, lm, ldd);
+            let want_t = crate::model::MVal::Time(lsod / 3600, (lsod / 60) % 60, lsod % 60, nanos);
+            if ld != want_d || lt != want_t || rr != "TRUETRUE" {
+                ctx.violation(&format!("c-api:get_datetime_local:{}", class_of(want)), &format!("local date/time getters give {} {} ({rr}), expected {} {}", ld.show(), lt.show(), want_d.show(), want_t.show()), json!({"zone": tz.name(), "secs": secs}));
+            }
+            if zs != want.tz {
+                ctx.violation(&format!("c-api:get_datetime_timezone:{}", class_of(want)), &format!("zone name {zs:?}, expected {:?}", want.tz), json!({}));
+            }
+        }
+    }
 }
 
 pub fn run(ctx: &mut Ctx) {
